@@ -8,6 +8,7 @@ import LolHtml.Lane.Hash
 import LolHtml.Lane.Enc
 import LolHtml.Lane.Esc
 import LolHtml.Lane.CApi
+import LolHtml.Lane.Sel
 
 namespace LolHtml.Lane
 
@@ -22,7 +23,8 @@ def registry : List (String × (String → String)) :=
     ("hash", Hash.run),
     ("enc", Enc.run),
     ("esc", Esc.run),
-    ("capi", CApi.run) ]
+    ("capi", CApi.run),
+    ("sel", Sel.run) ]
 
 def find (name : String) : Option (String → String) :=
   (registry.find? (·.1 == name)).map (·.2)
